@@ -526,14 +526,17 @@ Definition kind_at (g : graph) (u : string) : option ekind :=
 Definition succ1 (g : graph) (u : string) : option string :=
   option_map snd (find (fun e => seqb (fst e) u) (g_edges g)).
 (* while isinstance(next_nd, (Fiber, Fused)): next_nd = next(successors(next_nd)) ; fuel = number of nodes *)
+Definition skipped_kind (k : ekind) : bool := match k with KFiber | KFused => true | _ => false end.
 Fixpoint skip_line (fuel : nat) (g : graph) (u : string) : res string :=
   match kind_at g u with
-  | Some KFiber | Some KFused =>
-      match fuel with
-      | O => Err "Loop:fibres_and_fused_only"
-      | S f => match succ1 g u with Some v => skip_line f g v | None => Err "StopIteration:successors" end
-      end
-  | _ => Ok u
+  | Some k =>
+      if skipped_kind k then
+        match fuel with
+        | O => Err "Loop:fibres_and_fused_only"
+        | S f => match succ1 g u with Some v => skip_line f g v | None => Err "StopIteration:successors" end
+        end
+      else Ok u
+  | None => Ok u
   end.
 
 (* insertion-ordered dict: key -> list *)
